@@ -1,37 +1,64 @@
 /-
   C03 — decryption inverts encryption with noise inside a two-sided bound.
 
-  The theorems are about the definitions of `Model/RLWE.lean` that the driver executes
-  (`ezSk`, `ezPk`, `ezPkNoP` = `EncryptZero` per key kind, `addPtToCt`, `encrypt`, `decrypt`, `genPublicKey`),
-  for EVERY commutative ring as carrier.  The executable carrier `RQ`/`RPoly` is tied to the Go code by the
-  correspondence run; that `RPoly` with its operations is a commutative ring is C01's statement.
+  WHAT IS PROVED, for all inputs (theorem names in this file unless a file is given):
 
-  Reading of the flags.  A model value is the stored polynomial pulled back to the coefficient domain with
-  the Montgomery factor kept.  `denote M md x` is the polynomial it stands for: `ofM x` iff `md.isMont`.
+  1. Identities, for EVERY commutative ring as carrier, every Montgomery pair, every target of degree ≥ 1 (fresh or
+     re-used), every flag / metadata combination, about the functions the driver executes (`Model/RLWE.lean`:
+     `ezSk`, `ezPk`, `ezPkNoP` = `EncryptZero` per key kind, `addPtToCt`, `encrypt`, `decrypt`, `genPublicKey`):
+     `dec_enc_sk` (+ `dec_enc_sk_denote`: the denoted noise is `e` for both values of `IsMontgomery`), `dec_enc_sk_deg0`
+     (compressed target + its expansion with the drawn `a`), `wrong_key` + `unit_mul_bijective`, `genPublicKey_noise`,
+     `dec_enc_pk_noP`, `dec_enc_pk_P` (abstract `ext`, `down`, `rem` with `P·down x = π x − π(rem x)`), `pk_deg0_panics`,
+     `metadata_eq`, `encrypt_indep_transforms`.
+  2. On the carrier the driver executes, standard ring (`RQ` with `ci = false`, plain `RPoly` values; hypotheses: odd
+     moduli ≥ 2, well-formed inputs): `Props/C03Ring` (`dec_enc_sk_rpoly/_rq`, `wrong_key_*`, `dec_enc_pk_noP_*`,
+     `genPublicKey_noise_rpoly`, `driver_dec_enc_sk`: the driver's `handleEnc`/`handleDec` are these functions after level
+     truncation) and `Props/C03Stack` (`dec_enc_pk_P_closed`: `ext = RQ.extSmall`, `down = RQ.modDown`, `rem` = centred
+     remainder, rounding identity PROVED; `dec_enc_pk_P_noise_closed`: the decryption error is the reduction of an integer
+     polynomial `D` with `2P‖D‖∞ ≤ 2‖u·e_pk + e0 + s·e1‖∞ + P(1 + ‖s‖₁)`).
+  3. The same shape for the other two key kinds, here: `dec_enc_sk_noise_closed` (error `e^Z`, `‖e^Z‖∞ ≤ B` comes back
+     exactly), `dec_enc_pk_noP_noise_closed` (`‖noise‖∞ ≤ B(‖u‖₁ + 1 + ‖s‖₁)`), `dec_enc_pk_noP_noise_declared` (ternary `u`, `s`
+     of Hamming weight `H`: `≤ B(n + 1 + H)`), at every level (= every chain `qs`), degree ≥ 1, metadata.
+  4. The hypotheses on the sampled integer vectors DISCHARGED from the sampler models of C17 (tied bit for bit to
+     `ring/sampler_*.go`): `dec_enc_sk_gauss_sampled` (error = what `gaussReadPlain` returns for ANY byte stream: noise
+     `≤ round(bound)`), `sparse_secret_sampled` (`ternSparse` returns `ofInts` of a ternary vector with `‖·‖₁ = min(H, N)`).
+  5. The conjugate-invariant carrier (`ci = true`): `dec_enc_sk_ci`, `dec_enc_pk_noP_ci` (via `Proofs/RLWECI.lean`: the
+     product `RQ.ciMul` the driver executes is the product of the subring of `WFPoly qs (2n)` fixed by `X ↦ X⁻¹`,
+     `RLWECI.emb_ciRowMul`, `foldC_hom`, `exists_foldC`).
+  6. The acceptance rule for the distributions (fix C03-10) as a model function tied to `NewParameters` (`accept` lines):
+     `RQ.acceptsBounds`; `RQ.accepted_ext_exact` (accepted ⇒ `extSmall` is exact on every vector within the bounds, every
+     level, both ring types), `RQ.extSmall_ofInts`, `RQ.rejected_ext_wrong` (the rule is sharp) — `Proofs/RLWE.lean`.
+  7. Norms in `Z[X]/(X^N+1)`: `negacyclic_norm`, `noise_upper_sk`, `noise_upper_pk_noP`, `noise_upper_pk_P`.
 
-  The model follows the code after the fixes /verif/fixes/C03-1 … C03-8.  Before them the property was false
-  (sk-encryptor with a target of degree ≥ 2, re-used targets of degree ≥ 2, `IsMontgomery` under a secret key or
-  a public key without P, ternary Xe outside the NTT domain); the corresponding probes stay in the harness
-  (`dec_enc_noise_upper` with keys `C03-sk-degree-ge2`, `C03-degree-ge2-stale`, `C03-montgomery-flag`,
-  `C03-ternaryH-readandadd`; `encrypt_total`; `decrypt_degree7`; `pt_value_level`; `declared_std`).
-  The abstract `ext` of the theorems is `RQ.extSmall` in the driver: it reads the value off limb 0 and, since fix
-  C03-9, reduces its magnitude modulo each `p_i` (before, `p_i − |c|` wrapped modulo 2^64 for `|c| > p_i`).  With an
-  error or secret bound ≥ `q_0/2` limb 0 does not determine the value and the P limbs of keys and pk-encryptions
-  are inconsistent with the Q limbs (probe `error_limbs_consistent`, key `C03-error-limbs-inconsistent`): such
-  literals are rejected when P is present (fix C03-10, probe `unextendable_bound_rejected`).  `Props/C03Stack.ext_coeff`
-  proves the per-coefficient statement.  The hypothesis `π (ext x) = x`-style facts are not needed:
-  `dec_enc_pk_P` holds for every `ext`; what `ext` must satisfy for the NORM bound is that `ext e` is the same small
-  integer polynomial over Q·p₀, which is what that probe checks on the real code.
-  Still open: `ShallowCopy` of a `WithPRNG` encryptor draws `c1` from a fresh system PRNG (probe
-  `shallowcopy_keeps_prng`, key `C03-shallowcopy-drops-prng`); the ciphertext is valid (the theorems below do not
-  care where `a` comes from) but a seed holder cannot expand a degree-0 ciphertext made by the copy.
-  Partial: distributional statements (standard deviation, independence of two encryptions, uniformity of the
-  wrong-key phase) are labelled statistical tests in the harness; there is no probability theory here.
+  Reading of the flags.  A model value is the stored polynomial pulled back to the coefficient domain with the
+  Montgomery factor kept.  `denote M md x` is the polynomial it stands for: `ofM x` iff `md.isMont`.
+
+  The model follows the code after the fixes /verif/fixes/C03-1 … C03-11 (all applied in /repo).  Before them the
+  property was false; the probes that exhibited it stay in the harness and must hold (`dec_enc_noise_upper`,
+  `encrypt_total`, `decrypt_degree7`, `pt_value_level`, `declared_std`, `error_limbs_consistent`,
+  `unextendable_bound_rejected`, `keygen_reused_receiver`, `component_noise_present`, `decrypt_reused_receiver`).
+
+  NOT proved:
+  * public-key encryption WITH P on the conjugate-invariant carrier (`ext`/`down` act coefficientwise and
+    `RQ.extSmall_ofInts` covers `ci = true`, but `dec_enc_pk_P_closed` is stated for `ci = false` only) and `wrong_key` /
+    `genPublicKey` on `ci = true` (same transport as `dec_enc_sk_ci`, not written out);
+  * the Gaussian big-number path and `Ternary{P}` secrets are not composed with item 3 (C17 proves their supports;
+    only `gaussReadPlain` small path and `ternSparse` are composed here);
+  * distributional statements of the property text (empirical standard deviation within a factor of nominal, two
+    encryptions differ, wrong-key distance of the order of Q): labelled statistical probes (`noise_std`, `noise_nonzero`,
+    `wrong_key_far`), no probability theory here; `wrong_key` gives the algebraic form `e + a(s' − s)` only;
+  * `RPoly.toInts` / centred CRT of the driver is not related to `ZPoly` (the closed statements speak of `ofInts`);
+  * evaluation-key components (property text: "every evaluation-key component"): C04; here only the probe family
+    `keygen_reused_receiver`.
+  Known finding (open): `ShallowCopy` of a `WithPRNG` encryptor draws `c1` from a fresh system PRNG (probe
+  `shallowcopy_keeps_prng`, key `C03-shallowcopy-drops-prng`); ciphertexts stay valid under the key.
 -/
 import Lattigo.Proofs.RLWE
 import Lattigo.Proofs.RLWENorm
 import Lattigo.Props.C03Ring
 import Lattigo.Props.C03Stack
+import Lattigo.Props.C17
+import Lattigo.Proofs.RLWECI
 import Mathlib.Data.ZMod.Basic
 
 namespace Lattigo.Props.C03
@@ -246,6 +273,320 @@ example : smul (5 : Nat) [1, -1] = sub (sub [7, -4] [2, 1]) (mul [1, 0] [0, 0]) 
 example : (ZPoly.mul [1, 2, 3, 4] [5, 6, 7, 96]).map (fun x => (x % 97).toNat)
     = RPoly.rowMul 97 [1, 2, 3, 4] [5, 6, 7, 96] := by decide
 
+/-! ## the two-sided statement, closed on the carrier the driver executes
+
+  `Props/C03Ring` transports the identities to `RPoly` values, `Props/C03Stack` closes the public-key-with-P case
+  down to an integer noise polynomial.  Here the remaining two cases get the same shape: the sampled values are
+  reductions (`RPoly.ofInts`) of INTEGER polynomials, as the samplers produce them, and the conclusion is
+  "decryption returns `pt + ofInts(noise^Z)` (Montgomery form iff flagged) and `‖noise^Z‖∞ ≤` explicit bound",
+  for every chain `qs` (= every level), every target of degree ≥ 1, every metadata / flag combination. -/
+
+section closed
+open Lattigo.ZPoly Lattigo.Transport Lattigo.RPolyRing Lattigo.StackKS
+variable {qs : List ℕ} {n : ℕ} [Good qs n]
+
+/-- **dec_enc_sk_noise_closed.**  Secret-key encryption: the error polynomial `e^Z` drawn from a distribution bounded by
+    `B` (`‖e^Z‖∞ ≤ B`: truncated Gaussian ⇒ `B = ⌊bound⌉`, ternary ⇒ `B = 1`) comes back as the decryption error, exactly:
+    `Decrypt(Encrypt(pt)).value = pt.value + [MForm] ofInts(e^Z)`, metadata of `pt`. -/
+theorem dec_enc_sk_noise_closed (hodd : ∀ q ∈ qs, q % 2 = 1) (ntt intt : RPoly → RPoly) (pt : Pt RPoly μ)
+    (ct : Ct RPoly μ) (o0 o1 : RPoly) (rest : List RPoly) (hct : ct.value = o0 :: o1 :: rest)
+    (a s : RPoly) (eZ : List ℤ) (B : ℕ) (hel : eZ.length = n) (hB : normInf eZ ≤ B)
+    (hpt : WFq qs n pt.value) (hctwf : ∀ p ∈ ct.value, WFq qs n p) (ha : WFq qs n a) (hs : WFq qs n s) :
+    ∃ noiseZ : List ℤ, noiseZ.length = n ∧ normInf noiseZ ≤ B ∧
+      (encrypt (ezSk rpMont a (RPoly.ofInts qs eZ) (rpMont.toM s)) ntt intt (some pt) ct).bind
+          (fun ct' => decrypt rpMont ct' (rpMont.toM s))
+        = some { value := pt.value + montIf rpMont pt.md.isMont (RPoly.ofInts qs noiseZ), md := pt.md } :=
+  ⟨eZ, hel, hB, C03Ring.dec_enc_sk_rpoly hodd ntt intt pt ct o0 o1 rest hct a _ s hpt hctwf ha (ofInts_wf _ hel) hs⟩
+
+/-- **dec_enc_pk_noP_noise_closed.**  Public key without auxiliary modulus, everything the samplers draw given as integer
+    polynomials: ephemeral secret `u^Z`, errors `e0^Z, e1^Z`, key error `e_pk^Z` (all errors bounded by `B`), secret `s^Z`;
+    `pk = (e_pk − pk1·s, pk1)` for ANY `pk1`.  The decryption error is the reduction of the integer polynomial
+    `u·e_pk + e0 + s·e1` and `‖·‖∞ ≤ B·(‖u‖₁ + 1 + ‖s‖₁)`. -/
+theorem dec_enc_pk_noP_noise_closed (hodd : ∀ q ∈ qs, q % 2 = 1) (ntt intt : RPoly → RPoly) (pt : Pt RPoly μ)
+    (ct : Ct RPoly μ) (o0 o1 : RPoly) (rest : List RPoly) (hct : ct.value = o0 :: o1 :: rest)
+    (uZ e0Z e1Z epkZ sZ : List ℤ) (pk1 : RPoly) (B : ℕ)
+    (hul : uZ.length = n) (he0l : e0Z.length = n) (he1l : e1Z.length = n) (hepkl : epkZ.length = n)
+    (hsl : sZ.length = n) (hBpk : normInf epkZ ≤ B) (hB0 : normInf e0Z ≤ B) (hB1 : normInf e1Z ≤ B)
+    (hpt : WFq qs n pt.value) (hctwf : ∀ p ∈ ct.value, WFq qs n p) (hpk1 : WFq qs n pk1) :
+    let s := RPoly.ofInts qs sZ
+    let pk0 := RPoly.ofInts qs epkZ - pk1 * s
+    ∃ noiseZ : List ℤ, noiseZ.length = n ∧ normInf noiseZ ≤ B * (norm1 uZ + 1 + norm1 sZ) ∧
+      (encrypt (ezPkNoP rpMont (RPoly.ofInts qs uZ) (RPoly.ofInts qs e0Z) (RPoly.ofInts qs e1Z)
+            (rpMont.toM pk0) (rpMont.toM pk1)) ntt intt (some pt) ct).bind
+          (fun ct' => decrypt rpMont ct' (rpMont.toM s))
+        = some { value := pt.value + montIf rpMont pt.md.isMont (RPoly.ofInts qs noiseZ), md := pt.md } := by
+  intro s pk0
+  have hu : WFq qs n (RPoly.ofInts qs uZ) := ofInts_wf _ hul
+  have he0 : WFq qs n (RPoly.ofInts qs e0Z) := ofInts_wf _ he0l
+  have he1 : WFq qs n (RPoly.ofInts qs e1Z) := ofInts_wf _ he1l
+  have hepk : WFq qs n (RPoly.ofInts qs epkZ) := ofInts_wf _ hepkl
+  have hs : WFq qs n s := ofInts_wf _ hsl
+  have hpk0 : WFq qs n pk0 := hepk.sub (hpk1.mul hs)
+  have hpk : pk0 + pk1 * s = RPoly.ofInts qs epkZ := by
+    obtain ⟨x, hx⟩ := exists_lift _ hepk
+    obtain ⟨y, hy⟩ := exists_lift _ hpk1
+    obtain ⟨z, hz⟩ := exists_lift _ hs
+    show (RPoly.ofInts qs epkZ - pk1 * s) + pk1 * s = _
+    rw [← hx, ← hy, ← hz]
+    show val ((x - y * z) + y * z) = val x
+    congr 1
+    ring
+  have hm1 : (ZPoly.mul uZ epkZ).length = n := by rw [mul_length, hul]
+  have hm2 : (ZPoly.mul sZ e1Z).length = n := by rw [mul_length, hsl]
+  refine ⟨ZPoly.add (ZPoly.add (ZPoly.mul uZ epkZ) e0Z) (ZPoly.mul sZ e1Z),
+    add_length _ _ (add_length _ _ hm1 he0l) hm2, ZPoly.noise_upper_pk_noP uZ epkZ e0Z e1Z sZ B hBpk hB0 hB1, ?_⟩
+  rw [C03Ring.dec_enc_pk_noP_rpoly hodd ntt intt pt ct o0 o1 rest hct _ _ _ pk0 pk1 _ s hpk hpt hctwf hu he0 he1
+    hpk0 hpk1 hs]
+  rw [C03Stack.noise_order hu hepk he0 he1 hs, ofInts_add _ _ (add_length _ _ hm1 he0l) hm2, ofInts_add _ _ hm1 he0l,
+    ofInts_mul _ _ hul hepkl, ofInts_mul _ _ hsl he1l]
+
+/-- **with the declared distributions**: ternary ephemeral secret and ternary secret of Hamming weights `hu`, `H`
+    (`‖·‖₁` IS the Hamming weight, `ZPoly.norm1_ternary`), errors bounded by `B`: the fresh public-key noise is at most
+    `B·(hu + 1 + H) ≤ B·(n + 1 + H)` in every coefficient. -/
+theorem dec_enc_pk_noP_noise_declared (hodd : ∀ q ∈ qs, q % 2 = 1) (ntt intt : RPoly → RPoly) (pt : Pt RPoly μ)
+    (ct : Ct RPoly μ) (o0 o1 : RPoly) (rest : List RPoly) (hct : ct.value = o0 :: o1 :: rest)
+    (uZ e0Z e1Z epkZ sZ : List ℤ) (pk1 : RPoly) (B H : ℕ)
+    (hul : uZ.length = n) (he0l : e0Z.length = n) (he1l : e1Z.length = n) (hepkl : epkZ.length = n)
+    (hsl : sZ.length = n) (hBpk : normInf epkZ ≤ B) (hB0 : normInf e0Z ≤ B) (hB1 : normInf e1Z ≤ B)
+    (hut : Ternary uZ) (hst : Ternary sZ) (hH : hamming sZ = H)
+    (hpt : WFq qs n pt.value) (hctwf : ∀ p ∈ ct.value, WFq qs n p) (hpk1 : WFq qs n pk1) :
+    let s := RPoly.ofInts qs sZ
+    let pk0 := RPoly.ofInts qs epkZ - pk1 * s
+    ∃ noiseZ : List ℤ, noiseZ.length = n ∧ normInf noiseZ ≤ B * (n + 1 + H) ∧
+      (encrypt (ezPkNoP rpMont (RPoly.ofInts qs uZ) (RPoly.ofInts qs e0Z) (RPoly.ofInts qs e1Z)
+            (rpMont.toM pk0) (rpMont.toM pk1)) ntt intt (some pt) ct).bind
+          (fun ct' => decrypt rpMont ct' (rpMont.toM s))
+        = some { value := pt.value + montIf rpMont pt.md.isMont (RPoly.ofInts qs noiseZ), md := pt.md } := by
+  intro s pk0
+  obtain ⟨nz, hl, hb, heq⟩ := dec_enc_pk_noP_noise_closed hodd ntt intt pt ct o0 o1 rest hct uZ e0Z e1Z epkZ sZ pk1 B
+    hul he0l he1l hepkl hsl hBpk hB0 hB1 hpt hctwf hpk1
+  refine ⟨nz, hl, Nat.le_trans hb (Nat.mul_le_mul_left _ ?_), heq⟩
+  rw [norm1_ternary uZ hut, norm1_ternary sZ hst, hH]
+  have := hamming_le_length uZ
+  omega
+
+end closed
+
+/-! ## the sampled values: hypotheses of the closed statements DISCHARGED from the sampler model (C17)
+
+  `‖e^Z‖∞ ≤ B` and "ternary of Hamming weight H" above are hypotheses on integer vectors.  The sampler models of C17
+  (`Sampler.gaussReadPlain`, `Sampler.ternSparse`, tied bit for bit to `ring/sampler_*.go`) are PROVED to write, on every
+  level view, the reduced residues of ONE such integer vector (`C17.rns_consistent_gauss`, `C17.sparse_weight`).  The
+  rows they return ARE `RPoly.ofInts` of it, so: -/
+
+section sampled
+open Lattigo.ZPoly Lattigo.Transport Lattigo.RPolyRing Lattigo.Sampler
+
+/-- rows that are the residues of one integer vector are `RPoly.ofInts` of it -/
+theorem rows_eq_ofInts (qs : List ℕ) (r : List (List ℕ)) (x : List ℤ)
+    (h : ∀ i, i < qs.length → r[i]? = some (x.map (resOf (qs.getD i 0)))) :
+    (⟨qs, r.take qs.length⟩ : RPoly) = RPoly.ofInts qs x := by
+  unfold RPoly.ofInts
+  congr 1
+  apply List.ext_getElem?
+  intro i
+  rw [List.getElem?_take, List.getElem?_map]
+  by_cases hi : i < qs.length
+  · rw [if_pos hi, h i hi, List.getElem?_eq_getElem hi, Option.map_some]
+    have : qs.getD i 0 = qs[i] := by simp [List.getD_eq_getElem?_getD, hi]
+    rw [this]
+    rfl
+  · rw [if_neg hi, List.getElem?_eq_none (by omega)]
+    rfl
+
+theorem normInf_le_of_forall (x : List ℤ) (B : ℕ) (h : ∀ v ∈ x, v.natAbs ≤ B) : normInf x ≤ B :=
+  normInf_le_iff.mpr h
+
+variable {qs : List ℕ} {n : ℕ} [Good qs n]
+
+/-- **dec_enc_sk_gauss_sampled.**  Secret-key encryption with the error polynomial the Gaussian sampler model returns
+    (`Read` on the level view `qs`, small-norm path, ANY PRNG byte stream, buffer state, `sigma`, `bound`): decryption
+    returns `pt + [MForm] ofInts(noise^Z)` with `‖noise^Z‖∞ ≤ round(bound)` — no hypothesis on the error left. -/
+theorem dec_enc_sk_gauss_sampled (hodd : ∀ q ∈ qs, q % 2 = 1) (hW : ∀ q ∈ qs, q < W)
+    (orc : Slow) (fuel sigma bound : ℕ) (pol r : Poly) (st st' : Bytes) (b b' : Buf) (slow : Bool)
+    (hb : BufInv b) (hpath : isBigPath sigma bound = false) (hrows : ∀ row ∈ pol, row.length = n)
+    (hread : gaussReadPlain orc fuel .read sigma bound n qs pol st b = .ok (r, slow, st', b'))
+    (ntt intt : RPoly → RPoly) (pt : Pt RPoly μ) (ct : Ct RPoly μ) (o0 o1 : RPoly) (rest : List RPoly)
+    (hct : ct.value = o0 :: o1 :: rest) (a s : RPoly)
+    (hpt : WFq qs n pt.value) (hctwf : ∀ p ∈ ct.value, WFq qs n p) (ha : WFq qs n a) (hs : WFq qs n s) :
+    ∃ noiseZ : List ℤ, noiseZ.length = n ∧ normInf noiseZ ≤ roundBound bound ∧
+      (encrypt (ezSk rpMont a ⟨qs, r.take qs.length⟩ (rpMont.toM s)) ntt intt (some pt) ct).bind
+          (fun ct' => decrypt rpMont ct' (rpMont.toM s))
+        = some { value := pt.value + montIf rpMont pt.md.isMont (RPoly.ofInts qs noiseZ), md := pt.md } := by
+  have hq : ∀ q ∈ qs, 0 < q ∧ q < W := fun q hq => ⟨by have := Good.q_ge (qs := qs) (n := n) q hq; omega, hW q hq⟩
+  obtain ⟨x, hxl, hxb, hxr⟩ := C17.rns_consistent_gauss orc fuel sigma bound n qs pol r st st' b b' slow hb hpath hq hrows hread
+  rw [rows_eq_ofInts qs r x hxr]
+  exact dec_enc_sk_noise_closed hodd ntt intt pt ct o0 o1 rest hct a s x (roundBound bound) hxl
+    (normInf_le_of_forall x _ hxb) hpt hctwf ha hs
+
+/-- **secret of the declared Hamming weight**: what `ternSparse` (Xs = Ternary{H: hw}) returns is `ofInts` of a ternary
+    vector with `‖·‖₁ = min(hw, N)` — the `Ternary s^Z`, `hamming s^Z = H` hypotheses of `dec_enc_pk_noP_noise_declared`. -/
+theorem sparse_secret_sampled (hW : ∀ q ∈ qs, q < W) (fuel hw : ℕ) (pol r : Poly) (st st' : Bytes)
+    (hrows : ∀ row ∈ pol, row.length = n) (h : ternSparse fuel .read false hw n qs pol st = .ok (r, st')) :
+    ∃ sZ : List ℤ, sZ.length = n ∧ Ternary sZ ∧ hamming sZ = min hw n ∧ norm1 sZ = min hw n
+      ∧ (⟨qs, r.take qs.length⟩ : RPoly) = RPoly.ofInts qs sZ := by
+  have hq : ∀ q ∈ qs, 2 ≤ q ∧ q < W := fun q hq => ⟨Good.q_ge (qs := qs) (n := n) q hq, hW q hq⟩
+  obtain ⟨x, hxl, hsup, hw', hxr⟩ := C17.sparse_weight fuel hw n qs pol r st st' hq hrows h
+  have hham : hamming x = min hw n := by
+    rw [← hw', hamming, List.countP_eq_length_filter]
+  exact ⟨x, hxl, hsup, hham, by rw [norm1_ternary x hsup, hham], rows_eq_ofInts qs r x hxr⟩
+
+/-- non-vacuity of `dec_enc_sk_gauss_sampled`: the C17 example run (σ = 3, bound = 18, N = 2, moduli 257 and 769, 1024 PRNG
+    bytes) drew `e^Z = (−3, 0)`; all hypotheses hold and the theorem applies to a re-used degree-1 target. -/
+example : ∃ noiseZ : List ℤ, noiseZ.length = 2 ∧ normInf noiseZ ≤ 18 ∧
+    (encrypt (ezSk rpMont ⟨[257, 769], [[5, 6], [7, 8]]⟩ ⟨[257, 769], [[254, 0], [766, 0]]⟩
+          (rpMont.toM ⟨[257, 769], [[1, 256], [1, 768]]⟩)) id id
+        (some (⟨⟨[257, 769], [[10, 20], [10, 20]]⟩, ⟨(), true, true⟩⟩ : Pt RPoly Unit))
+        ⟨[⟨[257, 769], [[1, 2], [3, 4]]⟩, ⟨[257, 769], [[0, 0], [0, 0]]⟩], ⟨(), false, false⟩⟩).bind
+      (fun ct' => decrypt rpMont ct' (rpMont.toM ⟨[257, 769], [[1, 256], [1, 768]]⟩))
+    = some { value := (⟨[257, 769], [[10, 20], [10, 20]]⟩ : RPoly)
+        + montIf rpMont true (RPoly.ofInts [257, 769] noiseZ), md := ⟨(), true, true⟩ } := by
+  have : Good [257, 769] 2 := ⟨by decide, by decide⟩
+  have hread : gaussReadPlain ⟨fun _ _ => none, fun _ _ _ => false⟩ 10 .read
+      (SF.ofBits64 4614388178203810202) (SF.ofBits64 4625816062258262835) 2 [257, 769] [[9, 9], [9, 9]]
+      ([0, 0, 0, 0x20] ++ List.replicate 1020 0) Buf.new =
+    .ok ([[254, 0], [766, 0]], false, [], { data := [0, 0, 0, 0x20] ++ List.replicate 1020 0, ptr := 16 })
+    ∧ isBigPath (SF.ofBits64 4614388178203810202) (SF.ofBits64 4625816062258262835) = false
+    ∧ roundBound (SF.ofBits64 4625816062258262835) = 18 := by
+    set_option maxRecDepth 100000 in
+    set_option exponentiation.threshold 5000 in
+    decide +kernel
+  have h := dec_enc_sk_gauss_sampled (qs := [257, 769]) (n := 2) (μ := Unit) (by decide) (by decide) _ 10 _ _
+    [[9, 9], [9, 9]] _ _ _ _ _ _ BufInv.new hread.2.1 (by decide) hread.1 id id
+    ⟨⟨[257, 769], [[10, 20], [10, 20]]⟩, ⟨(), true, true⟩⟩
+    ⟨[⟨[257, 769], [[1, 2], [3, 4]]⟩, ⟨[257, 769], [[0, 0], [0, 0]]⟩], ⟨(), false, false⟩⟩ _ _ [] rfl
+    ⟨[257, 769], [[5, 6], [7, 8]]⟩ ⟨[257, 769], [[1, 256], [1, 768]]⟩
+    (by decide) (by decide) (by decide) (by decide)
+  rw [hread.2.2] at h
+  exact h
+
+end sampled
+
+/-! ## the conjugate-invariant carrier (`ci = true`: what the driver evaluates for `ring.ConjugateInvariant`)
+
+  `Proofs/RLWECI.lean`: the well-formed conjugate-invariant values are the image, under a map preserving `+ * − neg` and
+  the Montgomery pair, of the commutative ring `CI qs n` (the subring of `WFPoly qs (2n)` fixed by `X ↦ X⁻¹`); the product
+  `RQ.ciMul` the driver executes (`take n (E a · E b)`) is the product of that ring (`RLWECI.emb_ciRowMul`).  Hence the
+  identities hold verbatim on `RQ` values tagged `ci = true`, for odd moduli and well-formed inputs. -/
+
+section ci
+open Lattigo.RLWECI Lattigo.Transport Lattigo.RPolyRing Lattigo.Props.C03Ring
+variable {qs : List ℕ} {n : ℕ} [Good qs n] [Good qs (2 * n)]
+
+/-- a coefficient matrix read as an element of the conjugate-invariant ring -/
+def ciq (p : RPoly) : RQ := ⟨true, p⟩
+
+theorem exists_foldC_list (l : List RPoly) (h : ∀ p ∈ l, WFq qs n p) :
+    ∃ l' : List (CI qs n), l'.map foldC = l.map ciq := by
+  induction l with
+  | nil => exact ⟨[], rfl⟩
+  | cons x xs ih =>
+    obtain ⟨z, hz⟩ := exists_foldC x (h x (by simp))
+    obtain ⟨zs, hzs⟩ := ih (fun p hp => h p (by simp [hp]))
+    exact ⟨z :: zs, by simp [hz, hzs, ciq]⟩
+
+/-- **dec_enc_sk_ci.**  `dec_enc_sk` on the conjugate-invariant carrier, as the driver evaluates it: every chain of odd
+    moduli, every `n ≥ 1`, every target of degree ≥ 1, every metadata. -/
+theorem dec_enc_sk_ci (hodd : ∀ q ∈ qs, q % 2 = 1) (ntt intt : RQ → RQ) (pt : Pt RPoly μ)
+    (ct : Ct RPoly μ) (o0 o1 : RPoly) (rest : List RPoly) (hct : ct.value = o0 :: o1 :: rest)
+    (a e s : RPoly) (hpt : WFq qs n pt.value) (hctwf : ∀ p ∈ ct.value, WFq qs n p)
+    (ha : WFq qs n a) (he : WFq qs n e) (hs : WFq qs n s) :
+    (encrypt (ezSk RQ.mont (ciq a) (ciq e) (RQ.mont.toM (ciq s))) ntt intt (some (ptMap ciq pt))
+        (ctMap ciq ct)).bind (fun ct' => decrypt RQ.mont ct' (RQ.mont.toM (ciq s)))
+      = some { value := ciq pt.value + montIf RQ.mont pt.md.isMont (ciq e), md := pt.md } := by
+  obtain ⟨za, hza⟩ := exists_foldC (qs := qs) (n := n) a ha
+  obtain ⟨ze, hze⟩ := exists_foldC (qs := qs) (n := n) e he
+  obtain ⟨zs, hzs⟩ := exists_foldC (qs := qs) (n := n) s hs
+  obtain ⟨zp, hzp⟩ := exists_foldC (qs := qs) (n := n) pt.value hpt
+  obtain ⟨zc, hzc⟩ := exists_foldC_list (qs := qs) (n := n) ct.value hctwf
+  have hzc' : zc.map foldC = ciq o0 :: ciq o1 :: rest.map ciq := by rw [hzc, hct]; rfl
+  obtain ⟨o0', o1', rest', hct'⟩ := map_eq_cons2 hzc'
+  have hM := isMont_montC (qs := qs) (n := n) hodd
+  have hφ := foldC_hom (qs := qs) (n := n) hodd
+  have hg := dec_enc_sk_gen hM id id (⟨zp, pt.md⟩ : Pt (CI qs n) μ) (⟨zc, ct.md⟩ : Ct (CI qs n) μ) o0' o1' rest' hct'
+    za ze zs
+  have hn := enc_dec_nat hφ foldC_montHom _ _ (ezSk_nat hφ foldC_montHom za ze (montC.toM zs))
+    id id ntt intt (some (⟨zp, pt.md⟩ : Pt (CI qs n) μ)) (⟨zc, ct.md⟩ : Ct (CI qs n) μ) (montC.toM zs)
+  rw [hg, foldC_montHom.toM] at hn
+  simp only [Option.map_some, ptMap, ctMap, hza, hze, hzs, hzp, hzc] at hn
+  simp only [ptMap, ctMap, ciq]
+  rw [hn]
+  simp only [hφ.add, ← montIf_nat foldC_montHom, hzp, hze]
+
+/-- **dec_enc_pk_noP_ci.**  `dec_enc_pk_noP` on the conjugate-invariant carrier. -/
+theorem dec_enc_pk_noP_ci (hodd : ∀ q ∈ qs, q % 2 = 1) (ntt intt : RQ → RQ) (pt : Pt RPoly μ)
+    (ct : Ct RPoly μ) (o0 o1 : RPoly) (rest : List RPoly) (hct : ct.value = o0 :: o1 :: rest)
+    (u e0 e1 pk0 pk1 epk s : RPoly) (hpk : ciq pk0 + ciq pk1 * ciq s = ciq epk)
+    (hpt : WFq qs n pt.value) (hctwf : ∀ p ∈ ct.value, WFq qs n p)
+    (hu : WFq qs n u) (he0 : WFq qs n e0) (he1 : WFq qs n e1) (hpk0 : WFq qs n pk0)
+    (hpk1 : WFq qs n pk1) (hs : WFq qs n s) :
+    (encrypt (ezPkNoP RQ.mont (ciq u) (ciq e0) (ciq e1) (RQ.mont.toM (ciq pk0)) (RQ.mont.toM (ciq pk1)))
+        ntt intt (some (ptMap ciq pt)) (ctMap ciq ct)).bind
+        (fun ct' => decrypt RQ.mont ct' (RQ.mont.toM (ciq s)))
+      = some { value := ciq pt.value + montIf RQ.mont pt.md.isMont (ciq u * ciq epk + ciq e0 + ciq e1 * ciq s),
+               md := pt.md } := by
+  obtain ⟨zu, hzu⟩ := exists_foldC (qs := qs) (n := n) u hu
+  obtain ⟨z0, hz0⟩ := exists_foldC (qs := qs) (n := n) e0 he0
+  obtain ⟨z1, hz1⟩ := exists_foldC (qs := qs) (n := n) e1 he1
+  obtain ⟨zk0, hzk0⟩ := exists_foldC (qs := qs) (n := n) pk0 hpk0
+  obtain ⟨zk1, hzk1⟩ := exists_foldC (qs := qs) (n := n) pk1 hpk1
+  obtain ⟨zs, hzs⟩ := exists_foldC (qs := qs) (n := n) s hs
+  obtain ⟨zp, hzp⟩ := exists_foldC (qs := qs) (n := n) pt.value hpt
+  obtain ⟨zc, hzc⟩ := exists_foldC_list (qs := qs) (n := n) ct.value hctwf
+  have hzc' : zc.map foldC = ciq o0 :: ciq o1 :: rest.map ciq := by rw [hzc, hct]; rfl
+  obtain ⟨o0', o1', rest', hct'⟩ := map_eq_cons2 hzc'
+  have hM := isMont_montC (qs := qs) (n := n) hodd
+  have hφ := foldC_hom (qs := qs) (n := n) hodd
+  have hg := dec_enc_pk_noP_gen hM id id (⟨zp, pt.md⟩ : Pt (CI qs n) μ) (⟨zc, ct.md⟩ : Ct (CI qs n) μ) o0' o1' rest' hct'
+    zu z0 z1 zk0 zk1 _ zs rfl
+  have hn := enc_dec_nat hφ foldC_montHom _ _
+    (ezPkNoP_nat hφ foldC_montHom zu z0 z1 (montC.toM zk0) (montC.toM zk1))
+    id id ntt intt (some (⟨zp, pt.md⟩ : Pt (CI qs n) μ)) (⟨zc, ct.md⟩ : Ct (CI qs n) μ) (montC.toM zs)
+  rw [hg, foldC_montHom.toM, foldC_montHom.toM, foldC_montHom.toM] at hn
+  simp only [Option.map_some, ptMap, ctMap, hzu, hz0, hz1, hzk0, hzk1, hzs, hzp, hzc] at hn
+  simp only [ptMap, ctMap, ciq] at hpk ⊢
+  rw [hn]
+  simp only [hφ.add, ← montIf_nat foldC_montHom, hφ.mul, hzp, hzu, hz0, hz1, hzk0, hzk1, hzs, hpk]
+
+/-- non-vacuity: `qs = [97, 193]`, `n = 4` (ring `Z[X+X⁻¹]/(X^8+1)`), a re-used degree-2 target, Montgomery flag set -/
+example : (encrypt (ezSk RQ.mont (ciq ⟨[97, 193], [[1, 2, 3, 4], [5, 6, 7, 8]]⟩) (ciq ⟨[97, 193], [[1, 0, 96, 2], [1, 0, 192, 2]]⟩)
+        (RQ.mont.toM (ciq ⟨[97, 193], [[1, 96, 0, 1], [1, 192, 0, 1]]⟩))) id id
+      (some (ptMap ciq (⟨⟨[97, 193], [[9, 8, 7, 6], [9, 8, 7, 6]]⟩, ⟨(), false, true⟩⟩ : Pt RPoly Unit)))
+      (ctMap ciq ⟨[⟨[97, 193], [[0, 0, 0, 0], [0, 0, 0, 0]]⟩, ⟨[97, 193], [[3, 3, 3, 3], [4, 4, 4, 4]]⟩,
+        ⟨[97, 193], [[5, 5, 5, 5], [6, 6, 6, 6]]⟩], ⟨(), true, false⟩⟩)).bind
+    (fun ct' => decrypt RQ.mont ct' (RQ.mont.toM (ciq ⟨[97, 193], [[1, 96, 0, 1], [1, 192, 0, 1]]⟩)))
+    = some { value := ciq ⟨[97, 193], [[9, 8, 7, 6], [9, 8, 7, 6]]⟩
+        + montIf RQ.mont true (ciq ⟨[97, 193], [[1, 0, 96, 2], [1, 0, 192, 2]]⟩), md := ⟨(), false, true⟩ } := by
+  have : Good [97, 193] 4 := ⟨by decide, by decide⟩
+  have : Good [97, 193] (2 * 4) := ⟨by decide, by decide⟩
+  exact dec_enc_sk_ci (qs := [97, 193]) (n := 4) (μ := Unit) (by decide) id id _ _ _ _ [_] rfl _ _ _
+    (by decide) (by decide) (by decide) (by decide) (by decide)
+
+end ci
+
+/-! ### non-vacuity: `qs = [97, 193]`, `n = 8`, a re-used degree-2 target, Montgomery-flagged plaintext -/
+
+section instance8
+open Lattigo.ZPoly Lattigo.Transport Lattigo.RPolyRing Lattigo.Props.C03Ring
+
+example : ∃ noiseZ : List ℤ, noiseZ.length = 8 ∧ normInf noiseZ ≤ 2 * (4 + 1 + 5) ∧
+    (encrypt (ezPkNoP rpMont (RPoly.ofInts [97, 193] [1, 0, -1, 0, 1, 1, 0, 0]) (RPoly.ofInts [97, 193] [2, -1, 0, 1, 0, -2, 1, 0])
+          (RPoly.ofInts [97, 193] [0, 1, -1, 0, 2, 0, 0, -1])
+          (rpMont.toM (RPoly.ofInts [97, 193] [1, 0, -1, 0, 2, 0, -2, 1] - a8 * RPoly.ofInts [97, 193] [1, -1, 0, 1, 0, 0, -1, 1]))
+          (rpMont.toM a8)) id id (some pt8) ct8).bind
+        (fun ct' => decrypt rpMont ct' (rpMont.toM (RPoly.ofInts [97, 193] [1, -1, 0, 1, 0, 0, -1, 1])))
+      = some { value := pt8.value + montIf rpMont pt8.md.isMont (RPoly.ofInts [97, 193] noiseZ), md := pt8.md } := by
+  have h := dec_enc_pk_noP_noise_closed (qs := [97, 193]) (n := 8) (μ := Unit) (by decide) id id pt8 ct8 z8 z8 [a8] rfl
+    [1, 0, -1, 0, 1, 1, 0, 0] [2, -1, 0, 1, 0, -2, 1, 0] [0, 1, -1, 0, 2, 0, 0, -1] [1, 0, -1, 0, 2, 0, -2, 1]
+    [1, -1, 0, 1, 0, 0, -1, 1] a8 2 rfl rfl rfl rfl rfl (by decide) (by decide) (by decide)
+    (by decide) (by decide) (by decide)
+  obtain ⟨nz, hl, hb, heq⟩ := h
+  exact ⟨nz, hl, Nat.le_trans hb (by decide), heq⟩
+
+example : RQ.acceptsBounds 97 true 38 2 = true ∧ (∀ x ∈ ([19, -19, 0, 7] : List ℤ), 2 * x.natAbs ≤ 38) := by decide
+
+end instance8
+
 end Lattigo.Props.C03
 
 #print axioms Lattigo.Props.C03.dec_enc_sk
@@ -260,6 +601,16 @@ end Lattigo.Props.C03
 #print axioms Lattigo.Props.C03.pk_deg0_panics
 #print axioms Lattigo.Props.C03.metadata_eq
 #print axioms Lattigo.Props.C03.encrypt_indep_transforms
+#print axioms Lattigo.Props.C03.dec_enc_sk_noise_closed
+#print axioms Lattigo.Props.C03.dec_enc_pk_noP_noise_closed
+#print axioms Lattigo.Props.C03.dec_enc_pk_noP_noise_declared
+#print axioms Lattigo.Props.C03.dec_enc_sk_gauss_sampled
+#print axioms Lattigo.Props.C03.sparse_secret_sampled
+#print axioms Lattigo.Props.C03.dec_enc_sk_ci
+#print axioms Lattigo.Props.C03.dec_enc_pk_noP_ci
+#print axioms Lattigo.RLWECI.emb_ciRowMul
+#print axioms Lattigo.RLWE.RQ.accepted_ext_exact
+#print axioms Lattigo.RLWE.RQ.extSmall_ofInts
 #print axioms Lattigo.Props.C03.negacyclic_norm
 #print axioms Lattigo.Props.C03.noise_upper_sk
 #print axioms Lattigo.Props.C03.noise_upper_pk_noP
